@@ -47,6 +47,8 @@ PROPS = {
                    "sum over infosets inside the solver loops is abstracted (R6) in the C09 slices. Counterfactual weighting: see C08.",
         verus=[U("c08_advance_order", ["C02.V.advance.reports_bound"]),
                U("c08_recurse_player", ["C08.V.recurse_player.update (counterfactual weight: opponent reach x chance reach, sign for player two)"]),
+               U("c08_recurse_single_player_arm", ["C08.V.recurse_single.player_arm (regret_a += weight x u_a - expected counterfactual value; average strategy += own reach x strategy)"]),
+               U("c08_recurse_multi_player_arm", ["C08.V.recurse_multi.player_arm"]),
                U("c08_chance_reach", ["C08.V.chance_reach.product_along_path"]),
                U("c09_generic_single", ["C09.V.first_below (the early stop the property speaks of)"]),
                U("c09_generic_multi", ["C09.V.first_below"]),
@@ -86,6 +88,9 @@ PROPS = {
         verus=[U("c06_generic_multi_fresh", ["C06.V.solve_generic_multi.workspace_fresh"]),
                U("c06_threshold_player_step", ["C06.V.thread_threshold.frontier_reach"]),
                U("c06_recurse_multi_cache", ["C06.V.recurse_multi.cache_hit", "C06.V.recurse_multi.miss_traverses", "C06.V.cached_payoff.unit_is_empty"]),
+               U("c08_recurse_single_player_arm", ["C08.V.recurse_single.player_arm (one visit of a decision node: the single-threaded statement)"]),
+               U("c08_recurse_multi_player_arm", ["C08.V.recurse_multi.player_arm (the same visit as a sequence of atomic events)"]),
+               U("c08_update_cum_strat", ["C08.V.update_cum_strat.vanilla", "C08.V.update_cum_strat.mutex (same update behind the lock)"]),
                U("c09_generic_single", ["C09.V.first_below (single- and multi-threaded loops obey the same stopping contract)"]),
                U("c09_generic_multi", ["C09.V.first_below"]),
                U("c08_chance_reach", ["C08.V.chance_reach.product_along_path (recurse_multi passes the same reaches as recurse_single)"]),
@@ -127,10 +132,13 @@ PROPS = {
                    "instance (TYPE-SUBST) only; recurse_single/multi/regret (RefCell/Mutex-generic recursion) are read, not proved.",
         verus=[U("c08_discount", ["C08.V.gen_discount.value", "C08.V.discount_cum_regret", "C08.V.discount_average_strat.ratio"]),
                U("c08_advance_order", ["C08.V.advance.match_before_discount", "C08.V.advance.discount_regrets", "C08.V.advance.discount_average"]),
-               U("c08_update_cum_strat", ["C08.V.update_cum_strat.vanilla", "C08.V.update_cum_strat.external"]),
+               U("c08_update_cum_strat", ["C08.V.update_cum_strat.vanilla", "C08.V.update_cum_strat.external", "C08.V.update_cum_strat.mutex"]),
                U("c08_external_recurse", ["C08.V.external.recurse"]),
                U("c08_recurse_regret_dispatch", ["C08.V.recurse_regret.terminal_sign", "C08.V.recurse_regret.chance_sampled", "C08.V.recurse_regret.active_enumerates", "C08.V.recurse_regret.external_sampled", "C08.V.recurse_regret.cache_hit"]),
                U("c08_recurse_player", ["C08.V.recurse_player.update"]),
+               U("c08_recurse_single_player_arm", ["C08.V.recurse_single.player_arm"]),
+               U("c08_recurse_multi_player_arm", ["C08.V.recurse_multi.player_arm"]),
+               U("c06_recurse_multi_cache", ["C06.V.recurse_multi.cache_hit", "C06.V.recurse_multi.miss_traverses"]),
                U("c06_generic_multi_fresh", ["C06.V.solve_generic_multi.workspace_fresh (a stale cache skips updates)"]),
                U("c07_external_fresh", ["C07.V.single_player_iter.workspace_fresh"]),
                U("c09_generic_single", ["C09.V.first_below (T iterations means T iterations)"]), U("c09_generic_multi", ["C09.V.first_below"]),
@@ -139,7 +147,9 @@ PROPS = {
         kani_functions=["src/solve/data.rs :: impl RegretParams / fn new, vanilla, lcfr, cfr_plus, dcfr, dcfr_prune, gen_discount, regret_match, discount_cum_regret, discount_average_strat",
                         "src/solve/data.rs :: impl Default for RegretParams"],
         trusted_base=[FLOAT_IDEAL, "real-analysis axioms for exp/ln, logaddexp documentation"],
-        not_decided=["recurse_player at its AtomicF64 instance (multi-threaded path)", "recurse_single / recurse_multi / recurse_regret glue (RefCell / Mutex-generic recursion): chance reach products, payoff sign flip of the second external pass", "whole-trajectory equality"],
+        not_decided=["recurse_player at its AtomicF64 instance (multi-threaded path): its contract there is restated in c08_recurse_multi_player_arm, proved only at the &mut [f64] instance",
+                     "the fixpoint of the recursion: every arm of recurse_single / recurse_multi / recurse_regret is under contract with the recursive calls bound to an uninterpreted value function, the induction over the tree that composes them is not done",
+                     "interleavings of atomic updates by different workers", "whole-trajectory equality"],
     ),
     "C09": dict(
         level="proof",
